@@ -698,6 +698,17 @@ func checkC11(c *Ctx) {
 	c.R.Min("R-foreign-delete", 1)
 	c.R.Min("R-register-first", 1)
 	c11SlotOwner(c)
+	// re-opening the client's listening stream must complete: nothing waits for the old stream's goroutine while
+	// holding the mutex that goroutine needs on its way out
+	{
+		var cfns []*ssa.Function
+		for _, f := range c.P.LibFns {
+			if clientSide(c, f) {
+				cfns = append(cfns, f)
+			}
+		}
+		c08NoLockAcrossWait(c, cfns)
+	}
 	_ = nSelf
 	_ = nReplace
 	_ = nForeign
